@@ -217,20 +217,22 @@ theorem walk_from (h : StrictTotal lt) (cfg : Limits) (hcfg : cfg.maxAdvance < u
         · exact hne hdropne r' hr'
 
 /-
-Full statement (C11, first sentence) over the mechanism model — FALSE for the unchanged code:
+Full statement (C11, first sentence) over the mechanism model:
 
-  theorem walk_complete (h : StrictTotal lt) (recode) (matched) (hnd : matched.Nodup) (limit) (hl : 0 < limit) :
-      ∃ pages, walkPages lt Limits.real recode matched limit (matched.length + 1) none = some pages ∧
-        (pages.map (·.hits)).flatten = sortKeys lt matched ∧ … ∧
-        page lt Limits.real matched none (matched.length + 5) = .ok ⟨sortKeys lt matched, none, matched.length⟩
+  theorem walk_complete (h : StrictTotal lt) (matched) (hnd : matched.Nodup) (limit) (hl : 0 < limit) :
+      ∃ pages, walkPages lt Limits.real id matched limit (matched.length + 1) none = some pages ∧
+        (pages.map (·.hits)).flatten = sortKeys lt matched ∧ …
 
-What is proved (`walk_complete_partial`) needs two hypotheses, each excluding one behaviour of the
-code, each with a negative witness below (a third one, `limit ≤ MAX_CANDIDATE_SIZE`, was needed until
-the repair 7ad6649 in /repo; the old cut is kept as `pageLegacy` with `legacy_large_limit_truncates`):
-* `hrec`  — the key survives `encode_cursor`/`decode_cursor` (fails for f64 sort values that
-            serde_json does not parse back exactly: `walk_breaks_when_key_not_roundtripped`);
-* `hn`    — at most `MAX_CURSOR_ADVANCE + 1` matches (documented bound: deeper walks end in an
-            error, `deep_walk_aborts`).
+What is proved (`walk_complete_partial`) needs ONE hypothesis that excludes a behaviour of the code:
+* `hn` — at most `MAX_CURSOR_ADVANCE + 1` matches (documented bound: deeper walks end in an error,
+         negative witness `deep_walk_aborts`).
+Two further hypotheses were needed for earlier states of /repo and are gone:
+* `limit ≤ MAX_CANDIDATE_SIZE` until 7ad6649 (old cut: `pageLegacy`, `legacy_large_limit_truncates`);
+* "the key survives `encode_cursor`/`decode_cursor`" until 0331be9: f64 sort values travelled as JSON
+  numbers that serde_json does not always parse back.  The codec is exact now (`cursor_roundtrip_sort`
+  has no side condition on f64 values), so the walk is stated with `recode = id`; the theorem with an
+  arbitrary `recode` is kept as `walk_complete_recode`, the old failure as
+  `legacy_walk_breaks_when_key_not_roundtripped`.
 The order-theoretic core holds without any of them: `keyset_walk_complete`.
 -/
 
@@ -283,12 +285,9 @@ theorem walkPages_min (cfg : Limits) (recode : κ → κ) (matched : List κ) (l
       | none => rfl
       | some c => simp only; rw [ih]
 
-/-- **walk_complete_partial** — for any strict total order on the keys and ANY page size ≥ 1
-(also above `MAX_CANDIDATE_SIZE`: the page size is then the cap): following `next` from the first
-request until it is absent never fails, the pages concatenate to exactly the sorted matches (every
-match once, in order), every response reports the exact total, and `next` is absent exactly on the
-last page (all earlier pages are full).  Partial because of `hrec` and `hn`, see above. -/
-theorem walk_complete_partial (h : StrictTotal lt) (cfg : Limits) (hcfg : cfg.maxAdvance < u32Max)
+/-- the walk theorem with an explicit key transformation between requests (`recode`) that is the
+identity on the keys in play -/
+theorem walk_complete_recode (h : StrictTotal lt) (cfg : Limits) (hcfg : cfg.maxAdvance < u32Max)
     (hmc : 0 < cfg.maxCandidates)
     (recode : κ → κ) (matched : List κ) (hnd : matched.Nodup) (hrec : ∀ k ∈ matched, recode k = k)
     (limit : Nat) (hl : 0 < limit) (hn : matched.length ≤ cfg.maxAdvance + 1) :
@@ -299,17 +298,27 @@ theorem walk_complete_partial (h : StrictTotal lt) (cfg : Limits) (hcfg : cfg.ma
   exact walk_complete_small_limit h cfg hcfg recode matched hnd hrec (min limit cfg.maxCandidates)
     (by omega) (Nat.min_le_right _ _) hn
 
+/-- **walk_complete_partial** — for any strict total order on the keys and ANY page size ≥ 1
+(above `MAX_CANDIDATE_SIZE` the page size is the cap): following `next` from the first request
+until it is absent never fails, the pages concatenate to exactly the sorted matches (every match
+once, in order), every response reports the exact total, and `next` is absent exactly on the last
+page (all earlier pages are full).  Partial only because of the documented depth bound `hn`. -/
+theorem walk_complete_partial (h : StrictTotal lt) (cfg : Limits) (hcfg : cfg.maxAdvance < u32Max)
+    (hmc : 0 < cfg.maxCandidates) (matched : List κ) (hnd : matched.Nodup)
+    (limit : Nat) (hl : 0 < limit) (hn : matched.length ≤ cfg.maxAdvance + 1) :
+    ∃ pages, walkPages lt cfg id matched limit (matched.length + 1) none = some pages ∧
+      (pages.map (·.hits)).flatten = sortKeys lt matched ∧
+      (∀ r ∈ pages, r.total = matched.length) ∧ WalkShape pages (min limit cfg.maxCandidates) :=
+  walk_complete_recode h cfg hcfg hmc id matched hnd (fun _ _ => rfl) limit hl hn
+
 /-- every match is returned exactly once: the concatenated pages are a permutation of the
 matches without repetition -/
 theorem walk_each_once_partial (h : StrictTotal lt) (cfg : Limits) (hcfg : cfg.maxAdvance < u32Max)
-    (hmc : 0 < cfg.maxCandidates)
-    (recode : κ → κ) (matched : List κ) (hnd : matched.Nodup) (hrec : ∀ k ∈ matched, recode k = k)
-    (limit : Nat) (hl : 0 < limit)
-    (hn : matched.length ≤ cfg.maxAdvance + 1) :
-    ∃ pages, walkPages lt cfg recode matched limit (matched.length + 1) none = some pages ∧
+    (hmc : 0 < cfg.maxCandidates) (matched : List κ) (hnd : matched.Nodup)
+    (limit : Nat) (hl : 0 < limit) (hn : matched.length ≤ cfg.maxAdvance + 1) :
+    ∃ pages, walkPages lt cfg id matched limit (matched.length + 1) none = some pages ∧
       ((pages.map (·.hits)).flatten).Perm matched ∧ ((pages.map (·.hits)).flatten).Nodup := by
-  obtain ⟨pages, hw, hflat, _, _⟩ :=
-    walk_complete_partial h cfg hcfg hmc recode matched hnd hrec limit hl hn
+  obtain ⟨pages, hw, hflat, _, _⟩ := walk_complete_partial h cfg hcfg hmc matched hnd limit hl hn
   have hp : (sortKeys lt matched).Perm matched := by rw [sortKeys_eq]; exact isort_perm_self matched
   exact ⟨pages, hw, by rw [hflat]; exact hp, by rw [hflat]; exact hp.nodup_iff.mpr hnd⟩
 
@@ -596,45 +605,88 @@ theorem gen_compact (idx : Index) (h2 : 2 ≤ idx.length) :
   have : ¬ idx.length ≤ 1 := by omega
   simp [this, manifestGen]
 
-/-
-Full statement (FALSE for the unchanged code, see `stale_accepted_after_delete_only`):
+/-! ### the manifest revision (fc973e1): every effective commit and compaction invalidates -/
 
-  theorem stale_rejected (idx : Index) (dels) (adds) (hchg : dels ≠ [] ∨ adds ≠ 0) (req raw st)
-      (h0 : req.generation = manifestGen idx) (hd : decodeCursor req raw = .ok st) :
-      ∀ st', decodeCursor { req with generation := manifestGen (commit idx dels adds) } raw ≠ .ok st'
+theorem bump_lt (r : Nat) : bump r < u32Mod := Nat.mod_lt _ (by decide)
 
-Proved part: every commit that writes a segment (`adds ≠ 0`; an upsert is a delete plus an
-add) and every compaction that merges ≥ 2 segments.  Missing: delete-only commits.
--/
+theorem apply_revision (st : IndexState) (op : IdxOp) :
+    (op.apply st).revision = if op.effective st then bump st.revision else st.revision := by
+  unfold IdxOp.apply
+  cases h : op.effective st
+  · simp
+  · cases op <;> simp
 
-/-- **stale_rejected_partial** — a cursor accepted for the index `idx` is not accepted by a
-reader of the index after a commit with at least one added document (same sort plan) -/
-theorem stale_rejected_partial (idx : Index) (dels : List (Nat × Nat)) (adds : Nat) (ha : adds ≠ 0)
-    (req : Req) (raw : Bytes) (st : CursorState) (h0 : req.generation = manifestGen idx)
-    (hd : decodeCursor req raw = .ok st) (st' : CursorState) :
-    decodeCursor { req with generation := manifestGen (commit idx dels adds) } raw ≠ .ok st' := by
+/-- an operation that is not effective (commit without pending operations, compaction of ≤ 1
+segment) leaves the index — contents and revision — untouched -/
+theorem apply_ineffective (st : IndexState) (op : IdxOp) (h : op.effective st = false) : op.apply st = st := by
+  unfold IdxOp.apply; simp [h]
+
+/-- the revision after a history = revision before + number of effective operations (mod 2³²) -/
+theorem revision_runOps : ∀ (ops : List IdxOp) (st : IndexState), st.revision < u32Mod →
+    (runOps st ops).revision = (st.revision + effCount st ops) % u32Mod := by
+  intro ops
+  induction ops with
+  | nil => intro st h; simp [runOps, effCount, Nat.mod_eq_of_lt h]
+  | cons op r ih =>
+    intro st h
+    simp only [runOps, effCount]
+    have hrev := apply_revision st op
+    cases he : op.effective st
+    · simp only [he, Bool.false_eq_true, if_false] at hrev ⊢
+      rw [ih _ (by rw [hrev]; exact h), hrev]; simp
+    · simp only [he, if_true] at hrev ⊢
+      rw [ih _ (by rw [hrev]; exact bump_lt _), hrev]
+      unfold bump
+      rw [Nat.add_mod, Nat.mod_mod, ← Nat.add_mod]
+      congr 1
+      omega
+
+/-- a history without effective operations changes nothing -/
+theorem runOps_unchanged : ∀ (ops : List IdxOp) (st : IndexState), effCount st ops = 0 → runOps st ops = st := by
+  intro ops
+  induction ops with
+  | nil => intro st _; rfl
+  | cons op r ih =>
+    intro st h
+    simp only [effCount] at h
+    cases he : op.effective st
+    · simp only [he, Bool.false_eq_true, if_false, Nat.zero_add] at h
+      simp only [runOps, apply_ineffective st op he] at h ⊢
+      exact ih st h
+    · simp [he] at h
+
+/-- **stale_rejected** (full strength) — for EVERY history of commits (adds, updates,
+delete-only — anything with pending operations) and compactions between the request that issued a
+cursor and the request that presents it: if the history contains at least one effective operation
+(and fewer than 2³² of them — the `u32` revision wraps), the cursor is not accepted by a reader of
+the resulting index, whatever the sort plan.  (A history without effective operations leaves the
+index unchanged: `runOps_unchanged`.) -/
+theorem stale_rejected (st : IndexState) (ops : List IdxOp) (hr : st.revision < u32Mod)
+    (hk : 0 < effCount st ops) (hk2 : effCount st ops < u32Mod)
+    (req : Req) (raw : Bytes) (stc : CursorState) (h0 : req.generation = readerGen st)
+    (hd : decodeCursor req raw = .ok stc) (stc' : CursorState) :
+    decodeCursor { req with generation := readerGen (runOps st ops) } raw ≠ .ok stc' := by
   intro hd'
-  have h1 := (cursor_rejected req raw st hd).1
-  have h2 := (cursor_rejected _ raw st' hd').1
+  have h1 := (cursor_rejected req raw stc hd).1
+  have h2 := (cursor_rejected _ raw stc' hd').1
   have h3 := decoded_generation_unique req
-    { req with generation := manifestGen (commit idx dels adds) } raw st st' rfl hd hd'
-  simp only at h2
-  rw [gen_commit_adds idx dels adds ha] at h2
-  omega
+    { req with generation := readerGen (runOps st ops) } raw stc stc' rfl hd hd'
+  simp only [readerGen] at h0 h2
+  rw [revision_runOps ops st hr] at h2
+  have hne : (st.revision + effCount st ops) % u32Mod ≠ st.revision := by
+    intro he
+    unfold u32Mod at *
+    omega
+  apply hne
+  rw [← h2, h3, h1, h0]
 
-/-- the same for a compaction that merges at least two segments -/
-theorem stale_rejected_compact_partial (idx : Index) (hseg : 2 ≤ idx.length)
-    (req : Req) (raw : Bytes) (st : CursorState) (h0 : req.generation = manifestGen idx)
-    (hd : decodeCursor req raw = .ok st) (st' : CursorState) :
-    decodeCursor { req with generation := manifestGen (compact idx) } raw ≠ .ok st' := by
-  intro hd'
-  have h1 := (cursor_rejected req raw st hd).1
-  have h2 := (cursor_rejected _ raw st' hd').1
-  have h3 := decoded_generation_unique req
-    { req with generation := manifestGen (compact idx) } raw st st' rfl hd hd'
-  simp only at h2
-  rw [gen_compact idx hseg] at h2
-  omega
+/-- contents can only change through an effective operation, so `stale_rejected` covers every
+changed index (fewer than 2³² steps away) -/
+theorem changed_index_rejects (st : IndexState) (ops : List IdxOp) (hchg : runOps st ops ≠ st) :
+    0 < effCount st ops := by
+  rcases Nat.eq_zero_or_pos (effCount st ops) with h | h
+  · exact absurd (runOps_unchanged ops st h) hchg
+  · exact h
 
 /-- a cursor of one sort plan presented to a request whose plan has another hash is rejected
 (sort cursors; a score cursor presented to a sort request or vice versa fails to parse, see the
@@ -720,8 +772,7 @@ theorem decodeCursor_encodeScore (req : Req) (c : ScoreCursor) (hw : c.wf) (hv :
 `hex_encode(serde_json::to_vec(state))` give the state back, for every state the code can produce:
 integer fields within their Rust types, keyword values valid UTF-8 (any bytes otherwise: quotes,
 backslashes and control characters go through the escapes), `i64` within range, score bits `u32`,
-`f64` values given by a complete JSON number lexeme (`FLex`; what the float printer/parser make of
-the number is outside the model — the known f64 finding lives exactly there). -/
+`f64` values as their 64-bit pattern (0331be9; exact, no float printing or parsing involved). -/
 theorem cursor_roundtrip_sort (c : SortCursor) (hw : c.wf) : parseSort (encodeSort c) = .ok c := by
   unfold parseSort encodeSort
   have hl : (hexEncode (sortJson c)).length % 2 = 0 := by rw [hexEncode_length]; omega
@@ -739,20 +790,13 @@ theorem decodeCursor_encodeSort (req : Req) (c : SortCursor) (hw : c.wf) (hf : r
   refine Or.inr ⟨hf, c, cursor_roundtrip_sort c hw, ?_, rfl⟩
   exact (checkSort_ok req c c).mpr ⟨rfl, hv, hg, hh, hr, hl⟩
 
-/-- the lexeme class `FLex` is inhabited: every integer lexeme belongs to it (serde_json prints
-integral doubles up to 1e16 with a trailing `.0`; the `decide`d example below covers a fraction and
-an exponent) -/
-theorem flex_natDec (n : Nat) : FLex (natDec n) := by
-  intro R hR
-  refine ⟨skipWs_natDec n R, _, lexNum_natDec n R hR, rfl, rfl⟩
-
 -- non-vacuity of `cursor_roundtrip_sort` (every kind of value, a quote, a tab, a multi-byte
 -- character and a negative number), decided on the bytes
 set_option maxRecDepth 1000000 in
-example : parseSort (encodeSort ⟨2, 3, 4, 885219400, 1, 2,
-    [.score 1065353216, .i64 (-5), .f64 [49, 46, 53, 101, 51], .str [113, 34, 9, 195, 169], .missing]⟩)
-    = .ok ⟨2, 3, 4, 885219400, 1, 2,
-    [.score 1065353216, .i64 (-5), .f64 [49, 46, 53, 101, 51], .str [113, 34, 9, 195, 169], .missing]⟩ := by
+example : parseSort (encodeSort ⟨3, 3, 4, 885219400, 1, 2,
+    [.score 1065353216, .i64 (-5), .f64 13859418557033966177, .str [113, 34, 9, 195, 169], .missing]⟩)
+    = .ok ⟨3, 3, 4, 885219400, 1, 2,
+    [.score 1065353216, .i64 (-5), .f64 13859418557033966177, .str [113, 34, 9, 195, 169], .missing]⟩ := by
   decide
 
 /-! ## F. `decode_cursor` is total -/
@@ -1052,8 +1096,8 @@ theorem walk_complete_driver_partial (dirs : List Bool) (matched : List (KeyN di
       (pages.map (·.hits)).flatten = sortKeys (ltKeyN dirs) matched ∧
       (∀ r ∈ pages, r.total = matched.length) ∧
       WalkShape pages (min limit Limits.real.maxCandidates) :=
-  walk_complete_partial (ltKeyN_strictTotal dirs) Limits.real (by decide) (by decide) id matched hnd
-    (fun _ _ => rfl) limit hl hn
+  walk_complete_partial (ltKeyN_strictTotal dirs) Limits.real (by decide) (by decide) matched hnd
+    limit hl hn
 
 /-! ## D. negative witnesses (decided by the kernel on concrete small inputs) and non-vacuity -/
 
@@ -1091,9 +1135,10 @@ example : (page ltNat { maxAdvance := 10, maxCandidates := 2 } [3, 1, 4, 2] none
 example : hitsOf (walkPages ltNat { maxAdvance := 10, maxCandidates := 2 } id [3, 1, 4, 2] 3 5 none)
     = some [[1, 2], [3, 4]] := by decide
 
-/-- the known finding "f64 sort value": if the key of the last hit of a page does not come back
-unchanged from the cursor (here 2 ↦ 20), the next request fails (`saw_cursor` stays false) -/
-theorem walk_breaks_when_key_not_roundtripped :
+/-- the repaired finding "f64 sort value" (before 0331be9): if the key of the last hit of a page
+does not come back unchanged from the cursor (here 2 ↦ 20), the next request fails (`saw_cursor`
+stays false) -/
+theorem legacy_walk_breaks_when_key_not_roundtripped :
     walkPages ltNat Limits.real (fun k => if k = 2 then 20 else k) [1, 2, 3] 1 4 none = none := by
   decide
 
@@ -1111,25 +1156,33 @@ def Dec.isOk {α : Type} : Dec α → Bool
   | .ok _ => true
   | _ => false
 
-/-- two segments (generations 1 and 2) -/
+/-- two segments (generations 1 and 2), revision 2 -/
 def wIdx : Index := [{ generation := 1, docs := 2, deleted := [] }, { generation := 2, docs := 1, deleted := [] }]
+def wSt : IndexState := { segs := wIdx, revision := 2 }
 
 /-- the cursor after the first hit (segment 0, doc 0, score 1.0) of a default-sort request -/
 def wCur : ScoreCursor :=
   { version := 1, generation := 2, scoreBits := 1065353216, segmentOrd := 0, docId := 0, returned := 1 }
 
-/-- **negative witness for `stale_rejected`** — a delete-only commit (document 0 of segment 1 is
-tombstoned) changes the contents but not the generation, and the old cursor still decodes -/
-theorem stale_accepted_after_delete_only :
-    liveCount (commit wIdx [(1, 0)] 0) ≠ liveCount wIdx ∧
-    manifestGen (commit wIdx [(1, 0)] 0) = manifestGen wIdx ∧
-    (decodeCursor { generation := manifestGen (commit wIdx [(1, 0)] 0), planHash := 0, planLen := 1,
+/-- a delete-only commit: document 0 of segment 1 is tombstoned (one pending operation) -/
+def wDel : IdxOp := .commit [(1, 0)] 0 1
+
+/-- **legacy witness** (before fc973e1 the reader compared cursors with the maximal segment
+generation) — the delete-only commit changes the contents but not that generation, and the old
+cursor still decodes -/
+theorem legacy_stale_accepted_after_delete_only :
+    liveCount (wDel.apply wSt).segs ≠ liveCount wSt.segs ∧
+    readerGenLegacy (wDel.apply wSt) = readerGenLegacy wSt ∧
+    (decodeCursor { generation := readerGenLegacy (wDel.apply wSt), planHash := 0, planLen := 1,
                     scoreFast := true } (encodeScore wCur)).isOk = true := by
   decide
 
-/-- …whereas after a commit that adds a document the same cursor is rejected -/
-example : (decodeCursor ⟨manifestGen (commit wIdx [(1, 0)] 1), 0, 1, true⟩ (encodeScore wCur))
-    = .error .generation := by
+/-- …with the revision the same delete-only commit invalidates the cursor (non-vacuity of
+`stale_rejected`), and so does a compaction -/
+example : (decodeCursor ⟨readerGen wSt, 0, 1, true⟩ (encodeScore wCur)).isOk = true ∧
+    (decodeCursor ⟨readerGen (wDel.apply wSt), 0, 1, true⟩ (encodeScore wCur)) = .error .generation ∧
+    (decodeCursor ⟨readerGen (runOps wSt [.compact]), 0, 1, true⟩ (encodeScore wCur)) = .error .generation ∧
+    effCount wSt [.commit [] 0 0, wDel, .compact, .compact] = 2 := by
   decide
 
 /-- a score cursor presented to a request with a sort plan is not even hex(JSON) -/
